@@ -434,6 +434,67 @@ func runC17Col(c *Ctx) {
 	} else {
 		c.bad("(*globValidator).error|column source", f.Pos(), "the error column is not taken from scanner.Position.Column: for non-ASCII patterns a byte offset lies outside the pattern")
 	}
+	// the callers have consumed the offending character, so the scanner stands one column behind it: the column stored
+	// in the error is Position.Column - 1 (or the constant fallback for patterns with line breaks)
+	var cols []ssa.Value
+	eachInstr(f, func(_ *ssa.BasicBlock, _ int, in ssa.Instruction) {
+		if st, ok := in.(*ssa.Store); ok {
+			if fa, ok := st.Addr.(*ssa.FieldAddr); ok && fieldAddrName(fa) == "InvalidGlobPattern.Column" {
+				cols = append(cols, st.Val)
+			}
+		}
+	})
+	construct := "(*globValidator).error|column of the consumed character"
+	if len(cols) == 0 {
+		c.bad(construct, f.Pos(), "no column is stored in the error")
+		return
+	}
+	var leaves []ssa.Value
+	seen := map[ssa.Value]bool{}
+	var expand func(v ssa.Value)
+	expand = func(v ssa.Value) {
+		if seen[v] {
+			return
+		}
+		seen[v] = true
+		if ph, ok := v.(*ssa.Phi); ok {
+			for _, e := range ph.Edges {
+				expand(e)
+			}
+			return
+		}
+		leaves = append(leaves, v)
+	}
+	for _, v := range cols {
+		expand(v)
+	}
+	wrong := ""
+	for _, v := range leaves {
+		l := linOf(v, 0)
+		syms := 0
+		okSym := true
+		for k, n := range l {
+			if k == "1" || n == 0 {
+				continue
+			}
+			syms++
+			if n != 1 || !strings.Contains(k, "Position.Column") {
+				okSym = false
+			}
+		}
+		switch {
+		case syms == 0:
+			// constant fallback
+		case syms == 1 && okSym && linConst(l) == -1:
+		default:
+			wrong = l.String()
+		}
+	}
+	if wrong == "" {
+		c.ok(construct, f.Pos(), "the column is the scanner column minus one: the column of the character consumed last")
+	} else {
+		c.bad(construct, f.Pos(), "the column stored is "+wrong+", not the scanner column minus one: the scanner stands behind the character the error is about, so the report is not at the offending character (past the end of the pattern for its last character)")
+	}
 }
 
 func runC17Term(c *Ctx) {
